@@ -48,9 +48,9 @@ class C20:
     level_text = ("Complete enumeration of all index sequences of length <= 6 over {0..4} for the sort and of (a seeded share of / all) ordered pairs of "
                   "sequences of length <= 4 over {0..3} for the predicate, plus seeded long sequences with large values.")
     level_note = "trusted: g++ 12 evaluating the templates, Python's sorted() and Counter as oracles"
-    rule = ("sort: all 19531 index sequences of length <= 6 over {0..4} (both tiers) + seeded random sequences of length <= 24 with values up to 2^64-1 (SIZE_MAX, 2^63, 2^32 and neighbours planted); the "
+    rule = ("sort: all 19531 index sequences of length <= 6 over {0..4} (both tiers) + seeded random sequences of length <= 24 with values up to 2^64-1 (SIZE_MAX, 2^63, 2^32 and neighbours planted) + every multiset of size 7 (thorough: and 8) over {0..n-1} in one seeded order; the "
             "printed ::type must equal Python's sorted(). predicate: ordered pairs of the 341 sequences of length <= 4 over {0..3}: a seeded 10% "
-            "(quick) / all 116281 (thorough), plus seeded random pairs (permuted copies, copies with one element changed); value must equal multiset "
+            "(quick) / all 116281 (thorough), plus seeded random pairs (permuted copies, copies with one element changed), plus pairs of equal length and equal sum modulo 2^64 (multisets of size 2 and 3 over a pool of powers of two and neighbours, multisets of size 5 (thorough: 6) over {0..n-1}); value must equal multiset "
             "equality. non-trivial = sequence with a repeated value that is not already sorted / pair with equal length; distinct by the sequence(s)")
 
     def setup(self):
@@ -90,6 +90,14 @@ class C20:
                 s += [rng.choice(s) for _ in range(rng.randint(1, 4))]   # force repeated values
                 rng.shuffle(s)
             seqs.append(s)
+        # every multiset of size n over {0..n-1} (dense values with repeats, beyond the exhaustive length), each in one seeded order
+        n_dense = 0
+        for n in ([7] if tier == "quick" else [7, 8]):
+            for ms in itertools.combinations_with_replacement(range(n), n):
+                s = list(ms)
+                rng.shuffle(s)
+                seqs.append(s)
+                n_dense += 1
         chunks = [seqs[i::32] for i in range(32)]
 
         def run_sort(i):
@@ -130,6 +138,34 @@ class C20:
                 # same set of values, different multiplicities
                 b[0] = b[1]
             pairs.append((a, b))
+        # pairs that agree on the cheap invariants (length and sum modulo 2^64) without being permutations of each other, and
+        # permuted copies: (a) multisets of size 2 and 3 over a pool of powers of two and their neighbours, (b) multisets of
+        # size 5 (thorough: 6) over {0..n-1}
+        pool = [0, 1, 2 ** 31, 2 ** 32 - 1, 2 ** 32, 2 ** 32 + 1, 3 * 2 ** 31, 2 ** 33, 2 ** 63, 2 ** 64 - 1]
+        n_struct = 0
+        groups = [list(itertools.combinations_with_replacement(pool, 2)), list(itertools.combinations_with_replacement(pool, 3))]
+        for n in ([5] if tier == "quick" else [5, 6]):
+            groups.append(list(itertools.combinations_with_replacement(range(n), n)))
+        for gi, g in enumerate(groups):
+            by_sum = {}
+            for ms in g:
+                by_sum.setdefault(sum(ms) % 2 ** 64, []).append(ms)
+            cand = []
+            for cls in by_sum.values():
+                for a in cls:
+                    for b in cls:
+                        cand.append((a, b))
+            if len(cand) > (2500 if tier == "quick" else 20000):
+                eq = [c for c in cand if c[0] == c[1]]
+                ne = [c for c in cand if c[0] != c[1]]
+                rng.shuffle(ne)
+                cand = eq + ne[:(2500 if tier == "quick" else 20000) - len(eq)]
+            for a, b in cand:
+                a, b = list(a), list(b)
+                rng.shuffle(a)
+                rng.shuffle(b)
+                pairs.append((a, b))
+                n_struct += 1
         pchunks = [pairs[i::32] for i in range(32)]
 
         def run_perm(i):
@@ -168,6 +204,8 @@ class C20:
             "sort_sequences": len(seqs),
             "sort_exhaustive_sequences": n_exh,
             "predicate_pairs": len(pairs),
+            "sort_dense_multisets": n_dense,
+            "predicate_pairs_equal_length_and_sum": n_struct,
             "predicate_pairs_in_full_space": n_all_pairs,
             "exhaustive_subspaces": ["sort: all sequences of length <= 6 over {0..4}"] + (["predicate: all ordered pairs of sequences of length <= 4 over {0..3}"] if tier == "thorough" else []),
             "programs": 64,
